@@ -69,6 +69,19 @@ theorem SpOk.admitOk {W T : Nat} {ws : List Win} (h : SpOk W T ws) : SpOk W T (a
     subst e
     exact hh w rest rfl
 
+theorem SpOk.refundOk {W T : Nat} {ws : List Win} (h : SpOk W T ws) : SpOk W T (refundWin ws) := by
+  obtain ⟨hs, hh⟩ := h
+  cases ws with
+  | nil => exact ⟨rfl, fun _ _ e => by simp [refundWin] at e⟩
+  | cons w rest =>
+    simp only [refundWin]
+    refine ⟨by rw [spacedBy_bump]; exact hs, ?_⟩
+    intro w' rest' e
+    simp only [List.cons.injEq] at e
+    obtain ⟨e, _⟩ := e
+    subst e
+    exact hh w rest rfl
+
 /-! ### Level layer: logs whose `Inc` instants never decrease -/
 
 /-- Every `Inc` event of the log happened at an instant ≤ `T`. -/
@@ -106,6 +119,10 @@ theorem tally_spaced (win : Nat) (k : Key) (hw : win % nsPerSec = 0) :
         | true => simpa [tallyStep] using (ih T hs.1 hbo).admitOk
         | false => simpa [tallyStep] using ih T hs.1 hbo
       | dec k' r => simpa [tallyStep] using ih T hs.1 hbo
+      | refund k' r b =>
+        cases b with
+        | true => simpa [tallyStep] using (ih T hs.1 hbo).refundOk
+        | false => simpa [tallyStep] using ih T hs.1 hbo
       | verdict tid r q b => simp [LEv.at] at hat
     · have hat' : LEv.at k e = false := by simpa using hat
       rw [tally_cons_other _ _ _ _ hat']
@@ -118,15 +135,19 @@ theorem stepThread_times (cfg : Cfg) (st : St) (now tid : Nat) (th : Thread) :
   unfold stepThread
   cases hpc : th.pc with
   | done v => simp
-  | inc todo thenA =>
+  | inc todo charged thenA =>
     cases todo with
-    | nil => dsimp only; split <;> simp
+    | nil => simp
     | cons ac rest =>
       obtain ⟨a, c⟩ := ac
       dsimp only
       intro h
       simp only [List.mem_singleton, LEv.inc.injEq] at h
       exact h.2.2.1
+  | refund todo thenA =>
+    cases todo with
+    | nil => simp
+    | cons ac rest => obtain ⟨a, c⟩ := ac; simp
   | allowed todo =>
     cases todo with
     | nil => simp
